@@ -18,6 +18,9 @@ func runC20(c *mon.Ctx) {
 		c20Constructors(c, r.Fork(1))
 		c20NoMutation(c, r.Fork(2))
 		c20Isolation(c, r.Fork(3))
+		// fresh roots on which several goroutines make the first use of colliding
+		// bucket sets at the same moment (all of them miss the empty cache together)
+		c09BucketRace(c, r.Fork(4), 4)
 	})
 }
 
